@@ -29,7 +29,7 @@ Lemma step_tk : forall c s t s', step c s t = Some s' ->
     (forall k, tpc th' = EStopJoin k -> k = 0 \/ k < nworkers c).
 Proof.
   intros c s t s' H. destr_step H; kill_gen; simp_st;
-    rewrite ?stop_loop_eq; unfold after_steal, after_sweep;
+    rewrite ?stop_loop_eq; steal_cases; unfold after_sweep;
     repeat match goal with |- context [if ?b then _ else _] => destruct b eqn:? end;
     eexists; eexists;
     (first [ exists GSame; split; [reflexivity|]; split; [reflexivity|]; split; [reflexivity|]
@@ -282,7 +282,7 @@ Qed.
 (* which threads can always move                                                              *)
 Definition always_enabled (p : pc) : bool :=
   match p with
-  | EStopStore | EStopPush _ | WLoop | WSteal _ | WTake | WBegin _ | WRun _ _ | WGTake _ _ _ | BCheck | BSweep _ | BTake _ _ => true
+  | EStopStore | EStopPush _ | WLoop | WSteal _ _ | WTake | WBegin _ | WRun _ _ | WGTake _ _ _ | BCheck | BSweep _ | BTake _ _ => true
   | _ => false
   end.
 Ltac enabled_tac Hn :=
@@ -480,7 +480,7 @@ Lemma step_weight : forall c s t s',
         thw (nworkers c) th' + restw s' <= thw (nworkers c) th + restw s + 2 * length (body_of c id))).
 Proof.
   intros c s t s' Hw H. destr_step H; kill_gen; simp_st;
-    rewrite ?stop_loop_eq; unfold after_steal, after_sweep;
+    rewrite ?stop_loop_eq; steal_cases; unfold after_sweep;
     repeat match goal with |- context [if ?b then _ else _] => destruct b eqn:? end;
     eexists; eexists;
     (split; [reflexivity|]; split; [reflexivity|]);
@@ -613,7 +613,7 @@ Lemma step_ops : forall c s t s', step c s t = Some s' ->
     (stop2 (tpc th') = true -> stop2 (tpc th) = true \/ tpc th = EStopStore).
 Proof.
   intros c s t s' H. destr_step H; kill_gen; simp_st;
-    rewrite ?stop_loop_eq; unfold after_steal, after_sweep;
+    rewrite ?stop_loop_eq; steal_cases; unfold after_sweep;
     repeat match goal with |- context [if ?b then _ else _] => destruct b eqn:? end;
     eexists; eexists; (split; [reflexivity|]; split; [reflexivity|]);
     unfold op_at; cbn [tpc trole prog opi goto next_op running];
